@@ -124,10 +124,15 @@ func canon(s []span) ([]span, error) {
 			next := s[j]
 			if !this.max.equal(next.min) { // If equal, we can merge unless both are open (handled below)
 				if len(this.max.pre) == 0 {
-					maxPlusOne := this.max.copy()
-					err := maxPlusOne.inc()
-					if err != nil {
-						return nil, err
+					// The first version past the end of this span is max
+					// itself if that end is open, otherwise its successor.
+					maxPlusOne := this.max
+					if !this.maxOpen {
+						maxPlusOne = this.max.copy()
+						err := maxPlusOne.inc()
+						if err != nil {
+							return nil, err
+						}
 					}
 					if maxPlusOne.lessThan(next.min) {
 						// There is a gap; cannot merge.
